@@ -622,6 +622,19 @@ class Peer:
                 hb = bytearray(h80)
                 hb[36 + (a // 8) % 32] ^= 1 << (a % 8)
                 h80 = bytes(hb)
+            elif kind == "mb_interior_as_leaves":
+                # the peer presents the block's first interior level as if it were the list of transactions: a proof for
+                # total' = ceil(total / 2) "transactions", all matched, whose leaves are hashes of PAIRS of transactions.
+                # It reaches the genuine merkle root; what it "proves" are interior nodes, not transaction ids.
+                blk = next((x for x in ch["blocks"] if x["header"] == h80), None)
+                if blk is None or len(blk["txids"]) < 2:
+                    return envs
+                lv = [x[::-1] for x in blk["txids"]]
+                if len(lv) % 2:
+                    lv.append(lv[-1])
+                lvl1 = [tm.sha256d(lv[j] + lv[j + 1]) for j in range(0, len(lv), 2)]
+                total, hashes, fb2, _ = rmerkle.build_partial(lvl1, [True] * len(lvl1))
+                fb = bytearray(fb2)
             elif kind == "mb_drop_hash" and hashes:
                 hashes = hashes[:-1]
             elif kind == "mb_extra_hash":
@@ -1194,7 +1207,7 @@ def run_step(sess, cl, peer, step, prop):
                         ids = mb.proved_txs()
                         for t in ids:
                             if t not in truth["txids"]:
-                                fail("C17", "M1", "proved_foreign_txid", f"validated proof for block {mb.id()} yields {t.hex()} which is not a transaction of that block")
+                                fail("C17", "M1", "proved_foreign_txid" + ("_interior_node" if (step.get("fault") or {}).get("kind") == "mb_interior_as_leaves" else ""), f"validated proof for block {mb.id()} yields {t.hex()} which is not a transaction of that block")
         # returned: every tx is in the requested blocks (M1) ...
         tr.oracle("M1_result")
         allowed = []
@@ -1429,7 +1442,7 @@ def execute(plan, prop, trace):
 # plan generation
 
 GENERIC_FAULTS = ["eof_at", "flip", "wrong_magic", "bad_checksum", "lie_long", "lie_short_consistent", "lie_short", "dup_env", "drop_env", "garbage_after", "close_after"]
-MB_FAULTS = ["mb_flip_hash", "mb_flip_flag", "mb_flip_total", "mb_flip_root", "mb_drop_hash", "mb_extra_hash", "mb_swap_hashes", "mb_wrong_block",
+MB_FAULTS = ["mb_flip_hash", "mb_flip_flag", "mb_flip_total", "mb_flip_root", "mb_drop_hash", "mb_extra_hash", "mb_swap_hashes", "mb_wrong_block", "mb_interior_as_leaves",
              "tx_wrong", "tx_omit", "tx_reorder", "tx_unmatched"]
 HDR_FAULTS = ["hdr_bad_pow", "hdr_break_link", "hdr_hard_bits", "hdr_txcount", "hdr_relink_valid", "hdr_weird_bits"]
 # compact targets that consensus treats as invalid: negative (sign bit 0x00800000 set with a non-zero mantissa), overflowing 256 bits, zero
@@ -1690,6 +1703,7 @@ def enumerate_c17(tier, seed):
             yield plan({"kind": "mb_flip_root", "a": bit, "b": 0, "nth": 0})
         yield plan({"kind": "mb_drop_hash", "a": 0, "b": 0, "nth": 0})
         yield plan({"kind": "mb_extra_hash", "a": 1, "b": 0, "nth": 0})
+        yield plan({"kind": "mb_interior_as_leaves", "a": 0, "b": 0, "nth": 0})
         for a in range(6):
             for b in range(a + 1, 6):
                 yield plan({"kind": "mb_swap_hashes", "a": a, "b": b, "nth": 0})
